@@ -87,6 +87,13 @@ for t in SECRET_TYPES:
     mk = "%s::new(\"x\".to_string())" % t
     add("C10", "c10_reject_ref_into_cow_%s" % t, "reject", "fn main() { let a = %s; let _c: std::borrow::Cow<'_, str> = (&a).into(); }" % mk, code="E0277", needle=t)
     add("C10", "c10_reject_into_cow_%s" % t, "reject", "fn main() { let a = %s; let _c: std::borrow::Cow<'static, str> = a.into(); }" % mk, code="E0277", needle=t)
+for t in ("CsrfToken", "AccessToken", "UserCode", "ClientSecret"):
+    add("C20", "c20_reject_borrowed_lookup_%s" % t, "reject",
+        "fn main() { let mut m: std::collections::HashMap<%s, u8> = std::collections::HashMap::new(); m.insert(%s::new(\"x\".to_string()), 1); let _ = m.get(\"x\"); }" % (t, t),
+        code="E0308", needle=t, features=TIMING)
+    add("C20", "c20_accept_owned_lookup_%s" % t, "accept",
+        "fn main() { let mut m: std::collections::HashMap<%s, u8> = std::collections::HashMap::new(); m.insert(%s::new(\"x\".to_string()), 1); assert_eq!(m.get(&%s::new(\"x\".to_string())), Some(&1)); let mut s = std::collections::HashSet::new(); s.insert(%s::new(\"y\".to_string())); assert!(s.contains(&%s::new(\"y\".to_string()))); }" % (t, t, t, t, t),
+        features=TIMING)
 add("C10", "c10_reject_hash_off", "reject", "fn main() { let mut h = std::collections::HashSet::new(); h.insert(ClientSecret::new(\"x\".to_string())); }", code="E0277", needle="ClientSecret")
 add("C10", "c10_reject_clone_verifier", "reject", "fn main() { let a = PkceCodeVerifier::new(\"x\".to_string()); let _b = a.clone(); }", code="E0599", needle="clone")
 add("C10", "c10_accept_clone_others", "accept",
